@@ -8,6 +8,11 @@ package objects
 
 // machine-arithmetic assumption (unchecked, reported): counters stay far below 2^64; maps set by the constructors are not nil
 //@ global forall q *Queue :: q.runningApps < 4611686018427387904 && q.allocatingAcceptedApps != nil
+//@ global forall q *Queue, a string :: q.reservedApps[a] < 4611686018427387904 && q.reservedApps[a] > -4611686018427387904
+// ownership (unchecked, reported): reservation maps of applications and nodes are separate objects created by the constructors
+//@ global forall a *Application, n *Node :: a.reservations != n.reservations
+//@ unique Application.reservations props C09
+//@ unique Node.reservations props C09
 
 //@ unique Queue.allocatingAcceptedApps props C11
 
@@ -408,3 +413,115 @@ package objects
 //@ callersof objects.Node.TryAddAllocation props C01 : objects.Application.tryNode objects.Application.tryPlaceholderAllocate$calls(objects.Node.TryAddAllocation)
 //@ callersof objects.Node.addAllocationInternal props C01 : objects.Node.TryAddAllocation objects.Node.AddAllocation
 //@ callersof objects.Application.tryNode props C01 : objects.Application.tryNodes$calls(objects.Application.tryNode) objects.Application.tryNodesNoReserve$calls(objects.Application.tryNode) objects.Application.tryRequiredNode objects.Application.tryReservedAllocate
+
+// ================================================================ C09: reservations
+
+// a node carries at most one reservation unless all of them are for asks that require this node
+//@ invariant[resv] Node as inv(sn): sn.reservations != nil && (forall k string :: (k in sn.reservations) ==> sn.reservations[k] != nil && sn.reservations[k].alloc != nil)
+//@ invariant[exclusive] Node as inv(sn): len(sn.reservations) <= 1 || (forall k string :: (k in sn.reservations) ==> sn.reservations[k].alloc.requiredNode != "")
+
+//@ func newReservation(node *Node, app *Application, alloc *Allocation, appBased bool) (r *reservation)
+//@   props C09
+//@   assigns nothing
+//@   ensures (node == nil || app == nil || alloc == nil) <==> r == nil
+//@   ensures r != nil ==> fresh(r) && r.alloc == alloc && r.app == app && r.node == node && r.allocKey == alloc.allocationKey && r.nodeID == (appBased ? node.NodeID : "") && r.appID == (appBased ? "" : app.ApplicationID)
+
+//@ func (sn *Node) Reserve(app *Application, ask *Allocation) (err error)
+//@   props C09
+//@   mode nopanic=off
+//@   requires inv_resv(sn) && inv_exclusive(sn)
+//@   assigns sn.reservations[*]
+//@   ensures inv_resv(sn) && inv_exclusive(sn)
+//@   ensures[made] err == nil ==> sn.reservations[ask.allocationKey] != nil && sn.reservations[ask.allocationKey].alloc == ask && sn.reservations[ask.allocationKey].app == app && sn.reservations[ask.allocationKey].node == sn
+//@   ensures[fits] err == nil ==> (forall t Key :: has(ask.allocatedResource, t) ==> rv(ask.allocatedResource, t) <= posv(rv(sn.totalResource, t)))
+//@   ensures[alone] err == nil && ask.requiredNode == "" ==> old(len(sn.reservations)) == 0
+//@   ensures[others] forall k string :: k != ask.allocationKey || err != nil ==> sn.reservations[k] == old(sn.reservations[k]) && (k in sn.reservations) == old(k in sn.reservations)
+//@   loop 1: invariant sn != nil && ask != nil && appReservation != nil && reqNode == (ask.requiredNode != "") && reqNode
+//@   loop 1: invariant forall k string :: seen(k) ==> sn.reservations[k].alloc.requiredNode != ""
+//@   loop 1: invariant forall k string :: sn.reservations[k] == old(sn.reservations[k]) && (k in sn.reservations) == old(k in sn.reservations)
+//@   loop 1: invariant appReservation.alloc == ask && appReservation.app == app && appReservation.node == sn
+
+//@ func (sn *Node) unReserve(alloc *Allocation) (n int)
+//@   props C09
+//@   mode nopanic=off
+//@   requires inv_resv(sn) && inv_exclusive(sn)
+//@   assigns sn.reservations[*]
+//@   ensures inv_resv(sn) && inv_exclusive(sn)
+//@   ensures[count] n == ((alloc != nil && old(alloc.allocationKey in sn.reservations)) ? 1 : 0)
+//@   ensures[gone] alloc != nil ==> !(alloc.allocationKey in sn.reservations)
+//@   ensures[others] forall k string :: alloc == nil || k != alloc.allocationKey ==> sn.reservations[k] == old(sn.reservations[k]) && (k in sn.reservations) == old(k in sn.reservations)
+
+//@ func (sq *Queue) Reserve(appID string)
+//@   props C09
+//@   mode nopanic=off
+//@   assigns sq.reservedApps[*]
+//@   ensures sq.reservedApps[appID] == old(sq.reservedApps[appID]) + 1 && (appID in sq.reservedApps)
+//@   ensures forall a string :: a != appID ==> sq.reservedApps[a] == old(sq.reservedApps[a]) && (a in sq.reservedApps) == old(a in sq.reservedApps)
+
+// the per-application count never goes below zero and the entry disappears when it reaches zero
+//@ func (sq *Queue) UnReserve(appID string, releases int)
+//@   props C09
+//@   mode nopanic=off
+//@   requires 0 <= releases && releases < 4611686018427387904
+//@   assigns sq.reservedApps[*]
+//@   ensures[dec] old(appID in sq.reservedApps) && old(sq.reservedApps[appID]) > releases ==> sq.reservedApps[appID] == old(sq.reservedApps[appID]) - releases && (appID in sq.reservedApps)
+//@   ensures[zero] !old(appID in sq.reservedApps) || old(sq.reservedApps[appID]) <= releases ==> !(appID in sq.reservedApps)
+//@   ensures[others] forall a string :: a != appID ==> sq.reservedApps[a] == old(sq.reservedApps[a]) && (a in sq.reservedApps) == old(a in sq.reservedApps)
+
+// the application's reservation map is keyed by the allocation key of the reserved ask
+//@ invariant[resvkeys] Application as inv(sa): forall k string :: (k in sa.reservations) ==> sa.reservations[k] != nil && sa.reservations[k].allocKey == k
+
+// an ask holds at most one reservation, and only while it is outstanding (registered and not allocated)
+//@ func (sa *Application) canAllocationReserve(alloc *Allocation) (err error)
+//@   props C09
+//@   mode nopanic=off
+//@   assigns nothing
+//@   ensures err == nil ==> !alloc.allocated && sa.reservations[alloc.allocationKey] == nil
+
+//@ func (sa *Application) reserveInternal(node *Node, ask *Allocation) (err error)
+//@   props C09
+//@   mode nopanic=off
+//@   holds inv_resv(node) && inv_exclusive(node)
+//@   requires inv_resvkeys(sa)
+//@   assigns sa.reservations[*], node.reservations[*]
+//@   ensures inv_resvkeys(sa)
+//@   ensures[both] err == nil ==> sa.reservations[ask.allocationKey] != nil && sa.reservations[ask.allocationKey].nodeID == node.NodeID && sa.reservations[ask.allocationKey].node == node && sa.reservations[ask.allocationKey].alloc == ask && node.reservations[ask.allocationKey] != nil && node.reservations[ask.allocationKey].alloc == ask
+//@   ensures[outstanding] err == nil ==> sa.requests[ask.allocationKey] != nil && !ask.allocated
+//@   ensures[atmostone] err == nil ==> old(sa.reservations[ask.allocationKey]) == nil
+//@   ensures[failed] err != nil ==> (forall k string :: sa.reservations[k] == old(sa.reservations[k]) && (k in sa.reservations) == old(k in sa.reservations) && node.reservations[k] == old(node.reservations[k]) && (k in node.reservations) == old(k in node.reservations))
+//@   ensures inv_resv(node) && inv_exclusive(node)
+
+//@ func (sa *Application) unReserveInternal(reserve *reservation) (n int)
+//@   props C09
+//@   mode nopanic=off
+//@   holds reserve != nil ==> inv_resv(reserve.node) && inv_exclusive(reserve.node)
+//@   requires inv_resvkeys(sa)
+//@   assigns sa.reservations[*], reserve.node.reservations[*]
+//@   ensures inv_resvkeys(sa)
+//@   ensures[count] n == ((reserve != nil && old(reserve.allocKey in sa.reservations)) ? 1 : 0)
+//@   ensures[appside] reserve != nil ==> !(reserve.allocKey in sa.reservations)
+//@   ensures[nodeside] reserve != nil && reserve.alloc != nil ==> !(reserve.alloc.allocationKey in reserve.node.reservations)
+//@   ensures[others] forall k string :: reserve == nil || k != reserve.allocKey ==> sa.reservations[k] == old(sa.reservations[k]) && (k in sa.reservations) == old(k in sa.reservations)
+
+//@ func (sa *Application) UnReserve(node *Node, ask *Allocation) (n int)
+//@   props C09
+//@   mode nopanic=off
+//@   holds forall k string :: sa.reservations[k] != nil ==> inv_resv(sa.reservations[k].node) && inv_exclusive(sa.reservations[k].node)
+//@   holds inv_resvkeys(sa)
+//@   assigns sa.reservations[*], sa.reservations[ask.allocationKey].node.reservations[*]
+//@   ensures inv_resvkeys(sa)
+//@   ensures[count] n == ((node != nil && ask != nil && old(ask.allocationKey in sa.reservations)) ? 1 : 0)
+//@   ensures[appside] node != nil && ask != nil ==> !(ask.allocationKey in sa.reservations)
+
+// cancelling reservations for a required-node ask: the queue that is told is the queue of the application that held
+// the reservation, under that application's id
+//@ func (sa *Application) cancelReservations(reservations []*reservation) (released int)
+//@   props C09
+//@   sweep
+//@   mode nopanic=off
+//@   holds inv_resvkeys(sa)
+//@   holds forall a *Application :: inv_resvkeys(a)
+//@   holds forall n *Node :: n != nil ==> inv_resv(n) && inv_exclusive(n)
+//@   loop 1: invariant inv_resvkeys(sa)
+//@   at[ownqueue] call objects.Queue.UnReserve#1: assert arg1 == res.app.ApplicationID && res.alloc.requiredNode == ""
+//@   at[theirqueue] call objects.Queue.UnReserve#2: assert arg0 == res.app.queue && arg1 == res.app.ApplicationID && res.alloc.requiredNode == ""
